@@ -195,6 +195,13 @@ def analyse(an, res_c06, res_c07):
                 # L3: values only
                 rt = m.ret_type
                 bad = rt.rstrip().endswith('&') or rt.rstrip().endswith('*') or 'iterator' in rt
+                if bad and 'iterator' in rt and not rt.rstrip().endswith('&') and not rt.rstrip().endswith('*'):
+                    # handing the caller's own output iterator back (std::copy style): the type of a by-value parameter, and not an
+                    # iterator type of one of the container's members
+                    own = any((p.get('type', {}).get('qualType', '') or '').strip() == rt.strip() for p in m.params)
+                    member_its = ('_List_iterator', '_List_const_iterator', '_Rb_tree', '_Node_iterator', '__normal_iterator', 'list<', 'map<')
+                    if own and not any(x in rt for x in member_its):
+                        bad = False
                 res_c06.ob('L3-NO-ESCAPE', ok=not bad)
                 if bad:
                     res_c06.violate(Violation('C06', 'L3-NO-ESCAPE', cm.name, mname, 'returns a reference/pointer/iterator',
